@@ -350,8 +350,14 @@ class Ctx:
     def disagree(self, observable, case, model=None, impl=None):
         self.disagreements.append({"observable": observable, "case": case, "model": model, "impl": impl})
 
-    def known(self, finding_id, what):
-        self.known_hits.setdefault(finding_id, what)
+    def known(self, finding_id, what, case=None):
+        """a failing input that matches the signature of a finding LISTED in known_findings.json
+        (status known). If the id is not listed there, it is an ordinary violation."""
+        listed = {e.get("id") for e in known_findings(self.prop)}
+        if finding_id in listed:
+            self.known_hits.setdefault(finding_id, what)
+        else:
+            self.fail(f"unlisted finding {finding_id}: {what}", case)
 
 
 def write_replay(prop, seed, payload, tag="v"):
